@@ -3,6 +3,7 @@ package harness
 import (
 	"context"
 	"fmt"
+	"os"
 	"sync"
 	"testing"
 	"time"
@@ -153,7 +154,9 @@ func runC10(t failer, c c10Case) (events []authEvent) {
 				ev.Class("scope-does-not-serve-after-reload")
 				return
 			}
-			t.Fatalf("HARNESS-BUG: connection from a serving scope was refused")
+			// the scope has users (the generator picks it that way) and a standard secret configuration:
+			// a server that refuses its clients outright lets no correct login pass
+			fail("correct-login-not-passed", "the connection from scope %s, which has users, was refused before any login could be made", scope)
 		}
 		r := newAuthRunner(d, scopeKey(scope), scripts)
 		exp := make([][]byte, len(scripts))
@@ -294,6 +297,7 @@ func TestC10Regress(t *testing.T) {
 			Right  bool   `json:"right_password"`
 			Conc   int    `json:"concurrent_logins"`
 			Large  bool   `json:"large_document"`
+			Cred   bool   `json:"credential_changes"`
 		}
 		mustUnmarshal(t, s, &probe)
 		if probe.Conc > 0 {
@@ -302,6 +306,10 @@ func TestC10Regress(t *testing.T) {
 		}
 		if probe.Large {
 			runC10Large(t)
+			continue
+		}
+		if probe.Cred {
+			runC10Credentials(t)
 			continue
 		}
 		if probe.Flow != "" {
@@ -431,6 +439,108 @@ func runC10Large(t failer) {
 			}
 			ev.Class("document-of-megabytes:" + format)
 			ev.NonTrivial("large-document", cse)
+		}
+	}
+}
+
+// TestC10EnumCredentialChanges: one user name, several credentials over time and place - alice in scope A and
+// alice in scope B with different passwords, from the hash option and from the keychain; then a reload that
+// gives alice another password.  After a login has passed somewhere, the same password presented where (or
+// when) it is not alice's must still fail.  Deterministic.
+func TestC10EnumCredentialChanges(t *testing.T) { runC10Credentials(t) }
+
+func runC10Credentials(t failer) {
+	for _, viaKeychain := range []bool{false, true} {
+		for _, format := range []string{"yaml", "json"} {
+			ev.Eval()
+			auth := func(name, pw string, kc map[string]string) *cfggen.Authenticator {
+				if viaKeychain {
+					kc[name] = cfggen.Hashes[pw]
+					return &cfggen.Authenticator{Type: cfggen.AuthnBcrypt, Options: map[string]string{"key": name, "group": "g"}}
+				}
+				return cfggen.BcryptAuth(pw)
+			}
+			mk := func(pwA, pwB string) cfggen.World {
+				var w cfggen.World
+				w.Keychain = map[string]string{}
+				w.Cfg.Secrets = []cfggen.Secret{cfggen.NewSecret(cfggen.ScopeA, cfggen.KeyA, cfggen.PrefixA), cfggen.NewSecret(cfggen.ScopeB, cfggen.KeyB, cfggen.PrefixB)}
+				w.Cfg.Users = []cfggen.User{
+					{Name: "alice", Scopes: []string{cfggen.ScopeA}, Authenticator: auth("alice", pwA, w.Keychain)},
+					{Name: "alice", Scopes: []string{cfggen.ScopeB}, Authenticator: auth("alice", pwB, w.Keychain)},
+				}
+				return w
+			}
+			w1, w2 := mk("pw-alpha", "pw-bravo"), mk("pw-charlie", "pw-alpha")
+			cse := map[string]interface{}{"credential_changes": true, "format": format, "via_keychain": viaKeychain}
+			journal("C10", cse)
+			kc := &swapKeychain{m: w1.KeychainBytes()}
+			env, err := startRef(w1.Cfg, refOpts{format: format, keychain: kc, recover: true})
+			if err != nil {
+				t.Fatalf("HARNESS-BUG: %v", err)
+			}
+			sess := uint32(40)
+			cur := w1
+			try := func(when, scope, pw string, _ bool) {
+				// what the password is worth is the model's to say (the keychain is asked for the user's
+				// name, so with the keychain variant both entries called alice share one credential)
+				want := cur.Cfg.ScopeUsers(scope)["alice"].Verifies(pw, cur.KeychainBytes())
+				d, err := env.dial(cfggen.AddrIn(scope, 33).IP(), 4500+int(sess))
+				if err != nil {
+					t.Fatalf("%v", err)
+				}
+				for _, flow := range []string{"pap", "ascii"} {
+					sess++
+					var st byte
+					if flow == "pap" {
+						st, _, _, err = papLogin(d, scopeKey(scope), sess, "alice", pw)
+					} else {
+						key := scopeKey(scope)
+						if _, _, _, err = d.send(model.Frame(key, model.Header{Version: 0xc0, Type: 1, Seq: 1, Session: sess}, model.AuthenStart{Action: 1, Priv: 1, AType: 1, Service: 1, User: b("alice"), Port: b("tty0"), RemAddr: b("r")}.Encode())); err == nil {
+							var pk []model.Packet
+							pk, _, _, err = d.send(model.Frame(key, model.Header{Version: 0xc0, Type: 1, Seq: 3, Session: sess}, model.AuthenContinue{UserMsg: b(pw)}.Encode()))
+							if len(pk) == 1 {
+								if r, ok, _ := model.DecodeAuthenReply(pk[0].Clear(key)); ok {
+									st = r.Status
+								}
+							}
+						}
+					}
+					if err != nil {
+						t.Fatalf("%v", err)
+					}
+					if os.Getenv("VERIF_DEBUG") != "" {
+						fmt.Printf("DEBUG kc=%v %s %s %s %s want=%v st=%d\n", viaKeychain, format, when, scope, pw, want, st)
+					}
+					switch {
+					case want && st != stPass:
+						violation(t, "C10", "authen", "C10:correct-login-not-passed", cse, "%s: alice in scope %s presents her password there (%s, %s) and is answered status %d", when, scope, pw, flow, st)
+					case !want && st == stPass:
+						violation(t, "C10", "authen", "C10:unjustified-pass", cse, "%s: alice in scope %s presents %s (%s), which is not her password there and then, and is answered PASS", when, scope, pw, flow)
+					}
+				}
+			}
+			try("at start", cfggen.ScopeA, "pw-alpha", true)
+			try("after alice passed in scope A", cfggen.ScopeB, "pw-alpha", false)
+			try("at start", cfggen.ScopeB, "pw-bravo", true)
+			try("after alice passed in scope B", cfggen.ScopeA, "pw-bravo", false)
+			kc.set(w2.KeychainBytes())
+			cur = w2
+			doc := w2.Cfg.YAML()
+			if format == "json" {
+				doc = w2.Cfg.JSON()
+			}
+			if err := env.stack.Reload(doc); err != nil {
+				t.Fatalf("HARNESS-BUG: %v", err)
+			}
+			try("after a reload that changed her password", cfggen.ScopeA, "pw-alpha", false)
+			try("after a reload that changed her password", cfggen.ScopeA, "pw-charlie", true)
+			try("after the reload", cfggen.ScopeB, "pw-bravo", false)
+			try("after the reload", cfggen.ScopeB, "pw-alpha", true)
+			if e := env.stop(); e != nil {
+				t.Fatalf("%v", e)
+			}
+			ev.Class("one-name-several-credentials")
+			ev.NonTrivial("credential-changes", cse)
 		}
 	}
 }
